@@ -14,6 +14,7 @@ std::string diffBattery(const std::vector<std::pair<std::string, std::string>>& 
 NiShape* buildMesh(NifFile& nif, const std::vector<std::string>& f);
 void skinMesh(NifFile& nif, NiShape* shape, int nbones, uint64_t seed, int maxInfl);
 void perturb(NifFile& nif, uint64_t seed);
+std::string probeSynth(const std::string& src);
 } // namespace vh
 
 namespace {
@@ -108,6 +109,8 @@ std::string linkage(NifFile& own, NifFile* other) {
 
 // c11.run <load:path | mesh:… | synth:…> <ctor|assign|assignover|self> <editseed> [perturb:<seed>] [stale]
 std::string run(const Args& a) {
+	if (probeSynth(a[1]) != "ok")
+		return "unloadable-synth";
 	return forked([&]() -> std::string {
 		auto* A = new NifFile;
 		auto f = split(a[1], ':');
